@@ -92,9 +92,21 @@ def gen_c06(rnd, mode, tier, tolerant_ok=False):
                     s["early"] = rnd.choice([0, 0.001, 0.005, 1])
             sends.append(s)
         senders.append({"id": f"S{k}", "sends": sends})
+    burst = is_async and not tolerant and rnd.random() < 0.006
+    if burst:
+        # one sender's event stalls inside a callback while another sender sends a burst: more than a
+        # thousand accepted events wait in the queue at once
+        n_b = rnd.choice([300, 1100, 1500])
+        senders = [{"id": "S0", "sends": [{"event": rnd.choice(prog["events"]), "tok": "S0.0", "think": 0}]},
+                   {"id": "S1", "sends": [{"event": rnd.choice(prog["events"]), "tok": f"S1.{j}",
+                                           "think": 0.001 if j == 0 else 0} for j in range(n_b)]}]
     beh = {}
     for c, m in sorted(prog["cbs"].items()):
         full = f"M0/{c}"
+        if burst:
+            if c == "machine.on_transition":
+                beh[full] = [{"tok": "S0.0", "pre": 60}]
+            continue
         if m.get("async") and rnd.random() < 0.8:
             r = {"pre": rnd.choice([0, 0, 0.001, 0.002, 0.005, 1, 60, 3600])}
             if rnd.random() < 0.3:
@@ -103,7 +115,7 @@ def gen_c06(rnd, mode, tier, tolerant_ok=False):
     # nested sends from callbacks, keyed by the token being processed
     alltoks = [s["tok"] for sd in senders for s in sd["sends"]]
     cands = sorted(c for c, m in prog["cbs"].items() if (m.get("async") or not is_async))
-    for _ in range(0 if tolerant else rnd.randint(0, 2)):
+    for _ in range(0 if tolerant or burst else rnd.randint(0, 2)):
         c = rnd.choice(cands)
         if not c.startswith("machine."):
             sig = prog["cbs"][c]["sig"]
@@ -141,7 +153,7 @@ def gen_c06(rnd, mode, tier, tolerant_ok=False):
                     if k2 in base[0]:
                         rule[k2] = base[0][k2]
             beh.setdefault(full, []).insert(0, rule)
-    cancel = is_async and rnd.random() < 0.25
+    cancel = is_async and not burst and rnd.random() < 0.25
     if cancel:
         # cancel@await: some sends are wrapped in wait_for with a short (virtual) timeout
         for sd in senders:
@@ -159,6 +171,8 @@ def gen_c06(rnd, mode, tier, tolerant_ok=False):
           "perm_seed": 0}
     if tolerant:
         sc["tolerant"] = True
+    if burst:
+        sc["burst"] = n_b
     if mode == "threads":
         sc["tseed"] = rnd.randrange(1 << 30)
         sc["nswitch"] = rnd.choice([1, 2, 2, 2, 3, 4, 6])
@@ -664,7 +678,8 @@ class C06(Campaign):
                    "cancel@await: sender wrapped in wait_for (asyncio; only the overlap clause is judged)", "sender think-time",
                    "coroutine created early / awaited late", "callback delay 0..1h virtual (stall)",
                    "nested send from a callback", "listener attached by a callback while its event is in progress",
-                   "tolerant non-total machine: events that meet no transition when processed are ignored silently"]
+                   "tolerant non-total machine: events that meet no transition when processed are ignored silently",
+                   "burst of 300-1500 sends from one task while another task's event stalls in a callback"]
     rule = ("one run = a total, fault-free machine and 2-4 concurrent senders (asyncio tasks with seeded "
             "think-times and yielding coroutine callbacks, or OS threads pre-empted at seeded line boundaries), "
             "each sending 1-4 uniquely tokenised events, some callbacks sending nested events. Checked from "
@@ -719,6 +734,7 @@ class C06(Campaign):
              "fault.nested_sends": st.get("sends", 0), "fault.virtual_delays": st.get("delays", 0),
              "fault.listener_attached_mid_event": st.get("attach", 0),
              "probe.tolerant_non_total_machine(order search)": 1 if sc.get("tolerant") else 0,
+             "fault.burst_while_stalled(events pending at once)": sc.get("burst", 0),
              "fault.preemptions": st.get("switches", 0), "probe.line_steps": st.get("line_steps", 0)}
         for site, n in (ev["res"].get("info", {}).get("sites") or {}).items():
             c["probe.preempt_site." + site] = n
